@@ -11,7 +11,7 @@ Open Scope Z_scope.
 (* ------------------------------------------------------------------ file system *)
 Inductive node := NFile (content : list Z) | NDir.
 Definition fsys := list (list (list Z) * node).
-Inductive ferr := ENOENT | ENOTDIR | EISDIR | ENAMETOOLONG | EINVAL | EEXIST.
+Inductive ferr := ENOENT | ENOTDIR | EISDIR | ENAMETOOLONG | EINVAL | EEXIST | ENOSPC.
 
 Fixpoint alookup (fs : fsys) (k : list (list Z)) : option node :=
   match fs with
@@ -278,10 +278,14 @@ Definition store_file (self : fileserver) (req : request) (p : ppath) : FM respo
   | inr _ =>
       let tmp := child dir (fs_tmpname self) in
       let shown := child (abspath self dir) (fs_tmpname self) in   (* _mkstemp_inner: dir = os.path.abspath(dir) *)
-      c <-- create shown tmp (payload req) ;;;                     (* + spool.write(request.payload) *)
+      (* spool.write(request.payload) sits inside the `with` block, BEFORE the try/except that unlinks: when it fails (full
+         disk) the exception leaves the block, the file (delete=False) stays behind empty and the request is answered 5.00 *)
+      let full := fs_disk_full self && nonempty_list (payload req) in
+      c <-- create shown tmp (if full then [] else payload req) ;;;
       match c with
       | inl e => raise (XOSError e)
       | inr _ =>
+        if full then raise (XOSError ENOSPC) else
           r <-- rename shown tmp p ;;;                             (* temppath.rename(path) *)
           match r with
           | inl e => unlink shown tmp ;;; raise (XOSError e)       (* except Exception: temppath.unlink(); raise *)
@@ -422,11 +426,35 @@ Fixpoint fetch_all (fuel : nat) (self : fileserver) (req : request) (szx n : Z) 
     | S f => let '(st2, rs) := fetch_all f self req szx (n + 1) st1 in (st2, (effs, r) :: rs)
     end
   else (st1, [(effs, r)]).
-Inductive item := IOne (r : request) | IAll (r : request) (szx : Z).
+(* fileserver.py:101-121 check_files_for_refreshes, one round (every 10 s): every observed path whose first GET has been
+   served is stat'ed again, in registration order; a path that cannot be stat'ed any more makes `relevant(False)` raise
+   AttributeError, which ends the task (the round stops there).  When a stat differs, the observers' callbacks make
+   ObservableResource._render_to_pipe render the registered request again: which ones is up to the environment ([rs]). *)
+Fixpoint refresh_list (fs : fsys) (l : list (ppath * bool)) : list effect :=
+  match l with
+  | [] => []
+  | (p, true) :: r => EStat p :: match fs_stat fs p with inl _ => [] | inr _ => refresh_list fs r end
+  | (_, false) :: r => refresh_list fs r
+  end.
+Fixpoint rerender (self : fileserver) (rs : list request) (st : state) : state * list effect :=
+  match rs with
+  | [] => (st, [])
+  | r :: rest => match render self r st with ((st1, e1), _) => let '(st2, e2) := rerender self rest st1 in (st2, e1 ++ e2) end
+  end.
+Definition with_full (self : fileserver) : fileserver :=
+  {| fs_root := fs_root self; fs_write := fs_write self; fs_etag_enabled := fs_etag_enabled self; fs_tmpname := fs_tmpname self;
+     fs_cwd := fs_cwd self; fs_disk_full := true |}.
+Inductive item :=
+| IOne (r : request) | IAll (r : request) (szx : Z)
+| IOneFull (r : request)                      (* the request is served while the disk is full *)
+| ITick (rs : list request).                  (* 10 s pass: one round of check_files_for_refreshes, re-rendering rs *)
 Definition step (self : fileserver) (st : state) (i : item) : state * list (list effect * response) :=
   match i with
   | IOne r => let '(st1, effs, resp) := serve self r st in (st1, [(effs, resp)])
   | IAll r szx => fetch_all 4096 self r szx 0 st
+  | IOneFull r => let '(st1, effs, resp) := serve (with_full self) r st in (st1, [(effs, resp)])
+  | ITick rs => let e0 := refresh_list (st_fs st) (st_obs st) in
+                let '(st1, e1) := rerender self rs st in (st1, [(e0 ++ e1, {| rcode := 0; rbody := BEmpty; retag := false |})])
   end.
 Fixpoint run (self : fileserver) (st : state) (items : list item) : state * list (list (list effect * response)) :=
   match items with
